@@ -139,8 +139,9 @@ Definition dests_after (s : state) (x : hop) : list dest :=
 Definition carries (g : fields) (m : msg) : Prop :=
   forall k v, fget k g = Some v -> fget k m = Some v.
 
+
 (* ===================================================================== *)
-(* (b) the hand-over race: Destinations.send || first Destinations.add     *)
+(* (b) the hand-over: Destinations.send || first Destinations.add          *)
 
 (* messages are numbers; the two list objects [self._destinations] may be bound to *)
 Inductive lst := LOld | LNew.            (* [BufferingDestination()]  /  the list made by add *)
@@ -151,14 +152,15 @@ Record shared := mkShared {
   newl : list elem;         (* contents of the new list object *)
   anyadd : bool;            (* self._any_added *)
   buf : list nat;           (* BufferingDestination.messages (one list object, appended in place) *)
-  dlog : list nat           (* what the real destination received *)
+  dlog : list nat;          (* what the real destination received *)
+  lock : option nat         (* self._lock: the thread holding it (legacy code: never taken) *)
 }.
 
 (* contents of a list object; nobody mutates the old one *)
-Definition items (sh : shared) (l : lst) : list elem :=
-  match l with LOld => [EBuf] | LNew => newl sh end.
+Definition items (s : shared) (l : lst) : list elem :=
+  match l with LOld => [EBuf] | LNew => newl s end.
 
-(* one activation of Destinations.send(message) *)
+(* one activation of Destinations._send(message) (legacy: the body of send) *)
 Inductive spc :=
 | SFor                      (* at `for dest in self._destinations:` *)
 | SCall (e : elem)          (* at `dest(message)` with dest = e *)
@@ -172,74 +174,104 @@ Record sendst := mkSend {
 
 Definition new_send (m : nat) : sendst := mkSend m None SFor.
 
-(* one line of send.  The `for` line creates the iterator over the list object
-   self._destinations is bound to NOW (first time only) and advances it;
-   the call line calls the element: the buffer appends to its messages list,
-   the real destination records.  (The lines before the loop -- is_report,
+(* one line of _send.  The `for` line creates the iterator over the list object
+   self._destinations is bound to NOW (first time only) and advances it; the call
+   line calls the element: the buffer appends to its messages list, the real
+   destination records.  (The lines before the loop -- is_report,
    message.update(globals), errors = [] -- and `try:` touch no shared state
    relevant here and are not steps of the model.) *)
-Definition send_step (sh : shared) (sd : sendst) : shared * sendst :=
+Definition send_step (s : shared) (sd : sendst) : shared * sendst :=
   match sd_pc sd with
   | SFor =>
-      let it := match sd_it sd with Some it => it | None => (dl sh, 0) end in
-      match nth_error (items sh (fst it)) (snd it) with
-      | Some e => (sh, mkSend (sd_msg sd) (Some (fst it, S (snd it))) (SCall e))
-      | None => (sh, mkSend (sd_msg sd) (Some it) SDone)
+      let it := match sd_it sd with Some it => it | None => (dl s, 0) end in
+      match nth_error (items s (fst it)) (snd it) with
+      | Some e => (s, mkSend (sd_msg sd) (Some (fst it, S (snd it))) (SCall e))
+      | None => (s, mkSend (sd_msg sd) (Some it) SDone)
       end
   | SCall e =>
       (match e with
-       | EBuf => mkShared (dl sh) (newl sh) (anyadd sh) (buf sh ++ [sd_msg sd]) (dlog sh)
-       | EDest => mkShared (dl sh) (newl sh) (anyadd sh) (buf sh) (dlog sh ++ [sd_msg sd])
+       | EBuf => mkShared (dl s) (newl s) (anyadd s) (buf s ++ [sd_msg sd]) (dlog s) (lock s)
+       | EDest => mkShared (dl s) (newl s) (anyadd s) (buf s) (dlog s ++ [sd_msg sd]) (lock s)
        end, mkSend (sd_msg sd) (sd_it sd) SFor)
-  | SDone => (sh, sd)
+  | SDone => (s, sd)
   end.
 
-(* the thread running Destinations.add(dest) *)
+Definition set_lock (s : shared) (l : option nat) : shared :=
+  mkShared (dl s) (newl s) (anyadd s) (buf s) (dlog s) l.
+
+(* ---- the code as it is now: hand-over under self._lock ------------------- *)
+
+(* logging thread: Destinations.send(message) *)
+Inductive apc :=
+| ARead                     (* if self._any_added: *)
+| AAcq                      (* with self._lock:  (blocks while the other thread holds it) *)
+| ARun (locked : bool)      (* inside self._send(message), with / without the lock *)
+| ARel                      (* leaving the with block *)
+| ADone.
+
+(* adding thread: Destinations.add(dest) *)
 Inductive bpc :=
+| BAcq                          (* with self._lock: *)
 | BRead                         (* if not self._any_added: *)
-| BSet                          (* self._any_added = True *)
 | BGrab                         (* buffered_messages = self._destinations[0].messages *)
 | BRebind                       (* self._destinations = [] *)
 | BExtend                       (* self._destinations.extend(destinations) *)
 | BTest                         (* if buffered_messages: *)
 | BFor (i : nat)                (* for message in buffered_messages:  live iterator, next index i *)
-| BSend (i : nat) (sd : sendst) (* self.send(message) *)
-| BDone (i : nat).              (* returned; i = number of buffered messages it re-sent *)
+| BSend (i : nat) (sd : sendst) (* self._send(message) *)
+| BSet                          (* self._any_added = True *)
+| BRel                          (* leaving the with block *)
+| BDone.
 
-Record rstate := mkR { sh : shared; ta : sendst; tb : bpc }.
+Record rstate := mkR { sh : shared; ta : apc; sa : sendst; tb : bpc }.
+
+(* thread t can take the lock (re-entrant; nested acquisition does not occur in this scenario) *)
+Definition lock_free (s : shared) (t : nat) : bool :=
+  match lock s with None => true | Some h => Nat.eqb h t end.
 
 Definition a_step (st : rstate) : rstate :=
-  let '(s', a') := send_step (sh st) (ta st) in mkR s' a' (tb st).
-
-(* [buffered_messages] is a reference to the buffer's own list object [buf]: what
-   the logging thread appends later is seen by the test and by the live iterator.
-   With a single adding thread self._destinations is still the old list at BGrab. *)
-Definition b_step (st : rstate) : rstate :=
   let s := sh st in
-  match tb st with
-  | BRead => mkR s (ta st) (if anyadd s then BDone 0 else BSet)
-  | BSet => mkR (mkShared (dl s) (newl s) true (buf s) (dlog s)) (ta st) BGrab
-  | BGrab => mkR s (ta st) BRebind
-  | BRebind => mkR (mkShared LNew [] (anyadd s) (buf s) (dlog s)) (ta st) BExtend
-  | BExtend =>
-      mkR (match dl s with
-           | LNew => mkShared LNew (newl s ++ [EDest]) (anyadd s) (buf s) (dlog s)
-           | LOld => s
-           end) (ta st) BTest
-  | BTest => mkR s (ta st) (match buf s with [] => BDone 0 | _ => BFor 0 end)
-  | BFor i =>
-      mkR s (ta st) (match nth_error (buf s) i with
-                     | Some m => BSend (S i) (new_send m)
-                     | None => BDone i
-                     end)
-  | BSend i sd =>
-      let '(s', sd') := send_step s sd in
-      mkR s' (ta st) (match sd_pc sd' with SDone => BFor i | _ => BSend i sd' end)
-  | BDone i => st
+  match ta st with
+  | ARead => mkR s (if anyadd s then ARun false else AAcq) (sa st) (tb st)
+  | AAcq => if lock_free s 0 then mkR (set_lock s (Some 0)) (ARun true) (sa st) (tb st) else st
+  | ARun lk =>
+      let '(s', sd') := send_step s (sa st) in
+      mkR s' (match sd_pc sd' with SDone => if lk then ARel else ADone | _ => ARun lk end) sd' (tb st)
+  | ARel => mkR (set_lock s None) ADone (sa st) (tb st)
+  | ADone => st
   end.
 
-(* thread ids: 0 = logging thread, 1 = adding thread; a step of a finished thread
-   (or of an unknown id) is skipped, as the line scheduler does *)
+(* [buffered_messages] is a reference to the buffer's own list object [buf]: what
+   is appended to it later is seen by the test and by the live iterator. *)
+Definition b_step (st : rstate) : rstate :=
+  let s := sh st in
+  let go := fun s' pc => mkR s' (ta st) (sa st) pc in
+  match tb st with
+  | BAcq => if lock_free s 1 then go (set_lock s (Some 1)) BRead else st
+  | BRead => go s (if anyadd s then BDone else BGrab)   (* a later add is outside this scenario *)
+  | BGrab => go s BRebind
+  | BRebind => go (mkShared LNew [] (anyadd s) (buf s) (dlog s) (lock s)) BExtend
+  | BExtend =>
+      go (match dl s with
+          | LNew => mkShared LNew (newl s ++ [EDest]) (anyadd s) (buf s) (dlog s) (lock s)
+          | LOld => s
+          end) BTest
+  | BTest => go s (match buf s with [] => BSet | _ => BFor 0 end)
+  | BFor i =>
+      go s (match nth_error (buf s) i with
+            | Some m => BSend (S i) (new_send m)
+            | None => BSet
+            end)
+  | BSend i sd =>
+      let '(s', sd') := send_step s sd in
+      go s' (match sd_pc sd' with SDone => BFor i | _ => BSend i sd' end)
+  | BSet => go (mkShared (dl s) (newl s) true (buf s) (dlog s) (lock s)) BRel
+  | BRel => go (set_lock s None) BDone
+  | BDone => st
+  end.
+
+(* thread ids: 0 = logging thread, 1 = adding thread; a step of a finished or
+   blocked thread (or of an unknown id) is skipped, as the line scheduler does *)
 Definition rstep (st : rstate) (t : nat) : rstate :=
   match t with
   | 0 => a_step st
@@ -251,30 +283,33 @@ Definition rrun (sched : list nat) (st : rstate) : rstate := fold_left rstep sch
 
 (* pre = messages buffered before the race, m = the message the logging thread sends *)
 Definition rinit (pre : list nat) (m : nat) : rstate :=
-  mkR (mkShared LOld [] false pre []) (new_send m) BRead.
+  mkR (mkShared LOld [] false pre [] None) ARead (new_send m) BAcq.
 
-Definition a_done (st : rstate) : bool :=
-  match sd_pc (ta st) with SDone => true | _ => false end.
-Definition b_done (st : rstate) : bool :=
-  match tb st with BDone _ => true | _ => false end.
+Definition a_done (st : rstate) : bool := match ta st with ADone => true | _ => false end.
+Definition b_done (st : rstate) : bool := match tb st with BDone => true | _ => false end.
 Definition finished (st : rstate) : bool := a_done st && b_done st.
-
 Definition delivered (st : rstate) : list nat := dlog (sh st).
 
-(* lost: both calls have returned and the message reached no destination *)
-Definition lost (m : nat) (st : rstate) : Prop :=
-  finished st = true /\ ~ In m (delivered st).
-
 (* labels of the steps a schedule executes (for the correspondence with the real
-   line steps): 1 for-line of send, 2 destination call, 3 read flag, 4 set flag,
-   5 grab buffer list, 6 rebind, 7 extend, 8 test, 9 for-line of add; 0 skipped *)
+   line steps): 1 for-line of _send, 2 destination call, 3 read flag, 4 set flag,
+   5 grab buffer list, 6 rebind, 7 extend, 8 test, 9 for-line of add, 10 lock
+   acquired, 11 lock released; 0 skipped (finished or blocked) *)
+Definition send_label (sd : sendst) : nat :=
+  match sd_pc sd with SFor => 1 | SCall _ => 2 | SDone => 0 end.
+
 Definition label (st : rstate) (t : nat) : nat :=
-  let sl := fun sd => match sd_pc sd with SFor => 1 | SCall _ => 2 | SDone => 0 end in
   match t with
-  | 0 => sl (ta st)
+  | 0 => match ta st with
+         | ARead => 3
+         | AAcq => if lock_free (sh st) 0 then 10 else 0
+         | ARun _ => send_label (sa st)
+         | ARel => 11
+         | ADone => 0
+         end
   | 1 => match tb st with
-         | BRead => 3 | BSet => 4 | BGrab => 5 | BRebind => 6 | BExtend => 7 | BTest => 8
-         | BFor _ => 9 | BSend _ sd => sl sd | BDone _ => 0
+         | BAcq => if lock_free (sh st) 1 then 10 else 0
+         | BRead => 3 | BGrab => 5 | BRebind => 6 | BExtend => 7 | BTest => 8
+         | BFor _ => 9 | BSend _ sd => send_label sd | BSet => 4 | BRel => 11 | BDone => 0
          end
   | _ => 0
   end.
@@ -286,7 +321,63 @@ Fixpoint labels (sched : list nat) (st : rstate) : list (nat * nat) :=
   end.
 
 (* observation compared with the real run: what the destination received, what
-   is left in the (orphaned) buffer list, whether both calls returned, the labels *)
+   is left in the buffer list, whether both calls returned, the labels *)
 Definition race_obs (pre : list nat) (m : nat) (sched : list nat) :=
   let st := rrun sched (rinit pre m) in
   (delivered st, buf (sh st), finished st, labels sched (rinit pre m)).
+
+(* ---- the code before the repair: no lock, flag set before the swap ------- *)
+Module Legacy.
+
+Inductive bpc :=
+| BRead                         (* if not self._any_added: *)
+| BSet                          (* self._any_added = True *)
+| BGrab | BRebind | BExtend | BTest
+| BFor (i : nat)
+| BSend (i : nat) (sd : sendst) (* self.send(message) *)
+| BDone.
+
+(* the logging thread runs the body of send directly: its state is the activation *)
+Record rstate := mkR { sh : shared; ta : sendst; tb : bpc }.
+
+Definition a_step (st : rstate) : rstate :=
+  let '(s', a') := send_step (sh st) (ta st) in mkR s' a' (tb st).
+
+Definition b_step (st : rstate) : rstate :=
+  let s := sh st in
+  match tb st with
+  | BRead => mkR s (ta st) (if anyadd s then BDone else BSet)
+  | BSet => mkR (mkShared (dl s) (newl s) true (buf s) (dlog s) (lock s)) (ta st) BGrab
+  | BGrab => mkR s (ta st) BRebind
+  | BRebind => mkR (mkShared LNew [] (anyadd s) (buf s) (dlog s) (lock s)) (ta st) BExtend
+  | BExtend =>
+      mkR (match dl s with
+           | LNew => mkShared LNew (newl s ++ [EDest]) (anyadd s) (buf s) (dlog s) (lock s)
+           | LOld => s
+           end) (ta st) BTest
+  | BTest => mkR s (ta st) (match buf s with [] => BDone | _ => BFor 0 end)
+  | BFor i =>
+      mkR s (ta st) (match nth_error (buf s) i with
+                     | Some m => BSend (S i) (new_send m)
+                     | None => BDone
+                     end)
+  | BSend i sd =>
+      let '(s', sd') := send_step s sd in
+      mkR s' (ta st) (match sd_pc sd' with SDone => BFor i | _ => BSend i sd' end)
+  | BDone => st
+  end.
+
+Definition rstep (st : rstate) (t : nat) : rstate :=
+  match t with 0 => a_step st | 1 => b_step st | _ => st end.
+
+Definition rrun (sched : list nat) (st : rstate) : rstate := fold_left rstep sched st.
+
+Definition rinit (pre : list nat) (m : nat) : rstate :=
+  mkR (mkShared LOld [] false pre [] None) (new_send m) BRead.
+
+Definition finished (st : rstate) : bool :=
+  match sd_pc (ta st), tb st with SDone, BDone => true | _, _ => false end.
+
+Definition delivered (st : rstate) : list nat := dlog (sh st).
+
+End Legacy.
